@@ -637,7 +637,7 @@ def traversal_shape(path, fn, inner_name, memo_names):
     return 'Memo' if (guarded and added) else 'PerPath'
 
 
-MISC_FILES = ('EvictGen', 'GraphGen', 'TravGen', 'MemGen', 'ShardGen', 'JoinGen', 'LoopGen', 'DiskGen', 'PickleGen')
+MISC_FILES = ('EvictGen', 'GraphGen', 'TravGen', 'MemGen', 'MemPickleGen', 'ShardGen', 'JoinGen', 'LoopGen', 'DiskGen', 'PickleGen')
 
 def gen_misc(repo, report, only):
     """one of the small generated files (MISC_FILES); each is produced on its own, so that a kernel that lost its shape fails its own file only"""
@@ -803,16 +803,27 @@ def gen_misc(repo, report, only):
         n = norm(init.body)
         if 'ifsizeisnotNone:\nself._cache=lrucache(size)\nelse:\nself._cache={}' not in n or 'self._lock=Lock()' not in n:
             fail(path, init, 'MemoryCache.__init__ changed')
-        red = find_func(mc.body, '__reduce__')
-        note('MemoryCache.__reduce__', 'cache/memory.py', red, src)
-        if norm(red.body) != 'return(self.__class__,(self.size,))':
-            fail(path, red, 'MemoryCache.__reduce__ changed')
         out.append('Inductive clear_kind := ResetSameKind | ResetToDict.')
         out.append(f'Definition mc_clear : clear_kind := {clear}.')
         out.append(f'Definition mc_locked_get : bool := {str(l_get).lower()}.')
         out.append(f'Definition mc_locked_set : bool := {str(l_set).lower()}.')
         out.append(f'Definition mc_locked_clear : bool := {str(l_clear).lower()}.')
-        out.append('Definition mc_key_is : string := "key.value".')
+        out.append('Definition mc_key_is : string := "key.value".\n')
+
+    # --- MemoryCache pickling hook (C19, C08): a copy is a new, empty cache of the same size
+    if only == 'MemPickleGen':
+        path = os.path.join(C, 'cache/memory.py')
+        src, tree = parse(path)
+        mc = find_class(tree, 'MemoryCache')
+        red = find_func(mc.body, '__reduce__')
+        if red is None:
+            fail(path, mc, 'MemoryCache.__reduce__ not found')
+        note('MemoryCache.__reduce__', 'cache/memory.py', red, src)
+        if norm(red.body) != 'return(self.__class__,(self.size,))':
+            fail(path, red, 'MemoryCache.__reduce__ changed')
+        for other in ('__getstate__', '__setstate__', '__reduce_ex__', '__getnewargs__', '__copy__', '__deepcopy__'):
+            if find_func(mc.body, other) is not None:
+                fail(path, mc, f'MemoryCache defines {other}')
         out.append('Definition mc_reduce_keeps : list string := ["size"].\n')
 
     # --- CachedColumn._get_shard
